@@ -193,24 +193,99 @@ package chain
 //@   ensures [id] result1 ==> result0.ID() == id
 //@   ensures [absent] !result1 ==> forall i int :: { m.txpool.v2txns[i] } 0 <= i && i < len(m.txpool.v2txns) ==> m.txpool.v2txns[i].ID() != id
 //
-// chain.Store: methods that only read (abstract state; writers are specified with the
-// properties that need them).
+// chain.Store against an abstract state (ghost maps; one store per manager):
+//   best    height -> id of the best chain (MainChain bucket), sheight = its tip height
+//   states  id -> consensus state (States bucket)
+//   hdr     id -> header of every known block; body: blocks whose body is stored;
+//   supp    ids whose stored record carries a supplement (validated and applied once)
+//   applied ids that were applied to the best chain at some point (never cleared)
+//@ ghost best map[uint64]types.BlockID
+//@ ghost sheight uint64
+//@ ghost states map[types.BlockID]consensus.State
+//@ ghost hdr map[types.BlockID]types.BlockHeader
+//@ ghost body map[types.BlockID]types.Block
+//@ ghost supp map[types.BlockID]bool
+//@ ghost applied map[types.BlockID]bool
+//
 //@ iface Store.BestIndex
+//@   assigns nothing
+//@   ensures (result1 <==> height in best) && result0.Height == height && (result1 ==> result0.ID == best[height]) && (!result1 ==> result0.ID == types.BlockID{})
+//@ iface Store.State
+//@   assigns nothing
+//@   ensures (result1 <==> id in states) && (result1 ==> result0 == states[id])
+//@ iface Store.Header
+//@   assigns nothing
+//@   ensures (result1 <==> id in hdr) && (result1 ==> result0 == hdr[id])
+//@ iface Store.Block
+//@   assigns nothing
+//@   ensures (result2 <==> id in body) && (result2 ==> result0 == body[id]) && ((result1 != nil) <==> (result2 && id in supp))
+//@ iface Store.AddState
+//@   assigns ghost:states
+//@   requires [no-overwrite] !(cs.Index.ID in applied)
+//@   ensures states == old(states)[cs.Index.ID := cs]
+//@ iface Store.AddBlock
+//@   assigns ghost:hdr, ghost:body, ghost:supp
+//@   ensures hdr == old(hdr)[b.ID() := b.Header()] && body == old(body)[b.ID() := b]
+//@   ensures supp == ite(bs != nil, old(supp)[b.ID() := true], remove(old(supp), b.ID()))
+//@ iface Store.PruneBlock
+//@   assigns ghost:body, ghost:supp
+//@   ensures body == remove(old(body), id) && supp == remove(old(supp), id)
+//@ iface Store.ApplyBlock
+//@   assigns ghost:best, ghost:sheight, ghost:applied
+//@   ensures best == old(best)[s.Index.Height := s.Index.ID] && sheight == s.Index.Height && applied == old(applied)[s.Index.ID := true]
+//@ iface Store.RevertBlock
+//@   assigns ghost:best, ghost:sheight
+//@   ensures best == remove(old(best), s.Index.Height + 1) && sheight == s.Index.Height
+//@ iface Store.Flush
 //@   assigns nothing
 //@ iface Store.SupplementTipTransaction
 //@   assigns nothing
 //@ iface Store.SupplementTipBlock
 //@   assigns nothing
-//@ iface Store.Block
-//@   assigns nothing
-//@ iface Store.Header
-//@   assigns nothing
-//@ iface Store.State
-//@   assigns nothing
 //@ iface Store.AncestorTimestamp
 //@   assigns nothing
 //@ iface Store.ExpiringFileContractIDs
 //@   assigns nothing
+//
+// Coherence of the abstract store: the best chain is contiguous up to sheight, every best
+// block has a state carrying its own index, and pruned bodies form a prefix of the chain.
+//@ pred storeInv() = (forall h uint64 :: { h in best } (h in best) <==> h <= sheight)
+//@   && (forall h uint64 :: { best[h] } h in best ==> (best[h] in states) && states[best[h]].Index.Height == h && states[best[h]].Index.ID == best[h])
+//@ pred prunedPrefix() = forall j uint64, k uint64 :: { best[j], best[k] } j < k && k <= sheight && !(best[k] in body) ==> !(best[j] in body)
+//@ pred managerInv(m *Manager) = m != nil && m.store != nil && storeInv() && m.tipState.Index.Height == sheight && best[sheight] == m.tipState.Index.ID
+//
+// Records: a body is stored only with its header, a supplement only with its body; a block
+// that was applied keeps its supplement for as long as it keeps its body (pruning removes both).
+//@ pred recordInv() = forall id types.BlockID :: { id in body } ((id in body) ==> (id in hdr)) && ((id in supp) ==> (id in body))
+//@ pred appliedInv() = forall id types.BlockID :: { id in applied } (id in applied) ==> (id in hdr) && ((id in supp) || !(id in body))
+//
+// ---------------------------------------------------------------------------
+// C19: pruning
+//
+//@ func (*Manager).PruneBlocks props C19
+//@   nopanic
+//@   requires managerInv(m) && prunedPrefix()
+//@   loop "for h > 0"
+//@     invariant m == old(m) && m.store == old(m.store) && h <= height && storeInv()
+//@     invariant best == old(best) && sheight == old(sheight) && states == old(states) && hdr == old(hdr) && applied == old(applied)
+//@     invariant forall id types.BlockID :: { id in body } (id in old(body)) && !(id in body) ==> h <= states[id].Index.Height && states[id].Index.Height < height && best[states[id].Index.Height] == id
+//@     invariant forall id types.BlockID :: { id in body } (id in body) ==> (id in old(body)) && body[id] == old(body[id])
+//@     invariant forall k uint64 :: { best[k] } h <= k && k < height && k <= sheight ==> !(best[k] in body)
+//@   ensures [kept] best == old(best) && sheight == old(sheight) && states == old(states) && hdr == old(hdr)
+//@   ensures [only-below] forall id types.BlockID :: { id in body } (id in old(body)) && !(id in body) ==> states[id].Index.Height < height && best[states[id].Index.Height] == id
+//@   ensures [others-intact] forall id types.BlockID :: { id in body } (id in body) ==> (id in old(body)) && body[id] == old(body[id])
+//@   ensures [all-below] forall k uint64 :: { best[k] } k < height && k <= sheight ==> !(best[k] in body)
+//@   ensures [prefix] prunedPrefix()
+//
+//@ func (*Manager).MinReorgIndex props C19
+//@   nopanic
+//@   requires managerInv(m)
+//@   loop "for index.Height > 0"
+//@     invariant m == old(m) && m.store == old(m.store) && index.Height <= sheight && best[index.Height] == index.ID
+//@     invariant forall k uint64 :: { best[k] } index.Height <= k && k < sheight ==> (best[k] in body)
+//@   ensures [onbest] result.Height <= sheight && best[result.Height] == result.ID
+//@   ensures [bodies] forall k uint64 :: { best[k] } result.Height <= k && k < sheight ==> (best[k] in body)
+//@   ensures [minimal] result.Height == 0 || !(best[result.Height - 1] in body)
 //
 // Assumed here, proved with C13/C05: these helpers never touch the pool.
 //@ func (*Manager).checkTxnSet
@@ -266,3 +341,14 @@ package chain
 //@     invariant len(m.txpool.txns) == preLen1
 //@     invariant m.txpool.indices == idxRef && idxRef != nil
 //@   ensures [atomic] result1 != nil ==> len(m.txpool.v2txns) == preLen && len(m.txpool.txns) == preLen1
+//
+// C19-B5 (and the ingestion half of C01): AddBlocks never replaces the state of a block that
+// was applied to the best chain (precondition no-overwrite of Store.AddState), also when the
+// block's body has been pruned in the meantime.
+//@ func (*Manager).reorgTo
+//@   assigns *
+//@ func (*Manager).AddBlocks props C19
+//@   requires managerInv(m) && appliedInv() && recordInv()
+//@   loop "range blocks"
+//@     invariant m == old(m) && m.store == old(m.store) && m.store != nil && appliedInv() && recordInv()
+//@     invariant applied == old(applied) && best == old(best) && sheight == old(sheight)
